@@ -17,17 +17,26 @@ namespace Rsa.Searchlight
 
 variable {K : Type} [Field K] [LinearOrder K] [IsStrictOrderedRing K]
 
-theorem absLt_iff (d : Int) (r : K) : absLt d r = true ↔ |(d : K)| < r := by
-  simp only [absLt, decide_eq_true_eq, Int.natCast_natAbs, Int.cast_abs]
+/-- the three regenerated per-axis comparisons are `|x - c| < r` -/
+theorem absLtX_iff (x c r : K) : Rsa.Gen.C19.absLtX x c r = true ↔ |x - c| < r := by
+  simp only [Rsa.Gen.C19.absLtX, decide_eq_true_eq, abs_eq_max_neg]
+
+theorem absLtY_iff (x c r : K) : Rsa.Gen.C19.absLtY x c r = true ↔ |x - c| < r := by
+  simp only [Rsa.Gen.C19.absLtY, decide_eq_true_eq, abs_eq_max_neg]
+
+theorem absLtZ_iff (x c r : K) : Rsa.Gen.C19.absLtZ x c r = true ↔ |x - c| < r := by
+  simp only [Rsa.Gen.C19.absLtZ, decide_eq_true_eq, abs_eq_max_neg]
 
 theorem distLt_iff (k : Int) (r : K) : distLt k r = true ↔ 0 < r ∧ (k : K) < r * r := by
   simp [distLt]
 
-theorem mem_axisPre {n : Nat} {c : Int} {r : K} {x : Nat} :
-    x ∈ axisPre n c r ↔ x < n ∧ |((x : Int) : K) - (c : K)| < r := by
-  simp only [axisPre, List.mem_filter, List.mem_range, absLt_iff, Int.cast_sub]
+theorem mem_axisPre {test : K → K → K → Bool} (htest : ∀ x c r, test x c r = true ↔ |x - c| < r)
+    {n : Nat} {c : Int} {r : K} {x : Nat} :
+    x ∈ axisPre test n c r ↔ x < n ∧ |((x : Int) : K) - (c : K)| < r := by
+  simp only [axisPre, List.mem_filter, List.mem_range, htest]
 
-theorem axisPre_nodup (n : Nat) (c : Int) (r : K) : (axisPre n c r).Nodup :=
+theorem axisPre_nodup (test : K → K → K → Bool) (n : Nat) (c : Int) (r : K) :
+    (axisPre test n c r).Nodup :=
   List.Nodup.filter _ List.nodup_range
 
 theorem mem_grid {xs ys zs : List Nat} {v : Vox} :
@@ -90,7 +99,8 @@ theorem prefilter_of_dist {v : Vox} {c : Ctr} {r : K} (hr : 0 < r)
 
 theorem mem_neighborsAlgo {s : Shape} {c : Ctr} {r : K} {v : Vox} :
     v ∈ neighborsAlgo s c r ↔ InVol s v ∧ 0 < r ∧ ((sqDist v c : Int) : K) < r * r := by
-  simp only [neighborsAlgo, List.mem_filter, mem_grid, mem_axisPre, distLt_iff, InVol]
+  simp only [neighborsAlgo, List.mem_filter, mem_grid, mem_axisPre absLtX_iff,
+    mem_axisPre absLtY_iff, mem_axisPre absLtZ_iff, distLt_iff, InVol]
   constructor
   · rintro ⟨⟨⟨h1, _⟩, ⟨h2, _⟩, ⟨h3, _⟩⟩, hr, hd⟩
     exact ⟨⟨h1, h2, h3⟩, hr, hd⟩
@@ -103,7 +113,8 @@ theorem mem_neighborsSpec {s : Shape} {c : Ctr} {r : K} {v : Vox} :
   simp only [neighborsSpec, List.mem_filter, mem_allVoxels, distLt_iff]
 
 theorem neighborsAlgo_nodup (s : Shape) (c : Ctr) (r : K) : (neighborsAlgo s c r).Nodup :=
-  List.Nodup.filter _ (grid_nodup (axisPre_nodup _ _ _) (axisPre_nodup _ _ _) (axisPre_nodup _ _ _))
+  List.Nodup.filter _ (grid_nodup (axisPre_nodup _ _ _ _) (axisPre_nodup _ _ _ _)
+    (axisPre_nodup _ _ _ _))
 
 theorem neighborsSpec_nodup (s : Shape) (c : Ctr) (r : K) : (neighborsSpec s c r).Nodup :=
   List.Nodup.filter _ (allVoxels_nodup s)
